@@ -72,24 +72,6 @@ def check_impl_fn(ctx, imp, f, opname):
         return check_seq(ctx, f, st, opname)
     if k == "array":
         return check_array(ctx, f, opname, paths, st["len"])
-    if k == "adt" and (st["path"].endswith("::Vec") or st["path"].endswith("::Box")):
-        for p in rets:
-            cs = _calls(p)
-            names = [c["def"].split("::")[-1] for c in cs]
-            if names not in (["iter", "map", "collect"], ["iter_mut", "map", "collect"], ["into_iter", "map", "collect"],
-                             ["deref", "iter", "map", "collect"], ["deref_mut", "iter_mut", "map", "collect"]):
-                return False, "iterator chain is %s (only iter/iter_mut/into_iter -> map -> collect preserves positions)" % names
-            src = vid(cs[-3]["argv"][0])
-            if not (src.startswith("op:a1") or src.startswith("ref:a1")) or "[" in src:
-                return False, "iterates over %s, not over self" % src
-            if vid(cs[-2]["argv"][0]) != "op:" + cs[-3]["result"] or vid(cs[-1]["argv"][0]) != "op:" + cs[-2]["result"]:
-                return False, "iterator chain is not linear"
-            ok, why = _closure_applies(ctx, cs[-2]["args"][1], opname)
-            if not ok:
-                return False, why
-            if not (p.value and p.value[0] == "op" and p.value[1] == cs[-1]["result"]):
-                return False, "collected result is not returned"
-        return True, "iter-map-collect"
     # wrappers and leaves: exactly one member op (or a leaf hold/cell access), whose result is what is returned
     for p in rets:
         mem = _member_results(p, opname)
@@ -287,6 +269,19 @@ def rule_H4(ctx, R):
             while v[0] == "agg" and v[1] in ("adt", "wrap") and len(v[4]) == 1 and (v[2].endswith("Result") or v[2].endswith("PoisonError")):
                 v = v[4][0]
             okv = False
+            # re-wrapped into another collection of the crate (`Owned { data: self.data }`): judged by the wrapped value
+            while v[0] == "agg" and v[1] == "adt" and v[2] in R.lock_adts and len(v[4]) == 1:
+                v = v[4][0]
+            if v[0] == "agg" and v[1] == "adt" and v[2] in R.lock_adts and v[4] and v[4][0][0] == "ref" and v[4][0][1][0] == "O":
+                # ... or re-boxed (`Boxed { data: leak(Box::new(self.data)), locks }`): judged by what went into the new box
+                cell = v[4][0][1][1]
+                lk = next((e for e in _calls(p) if e.get("result") == cell and e["def"].endswith(("leak", "into_raw"))), None)
+                bx = next((e for e in _calls(p) if lk and vid(lk["argv"][0]) == "op:" + str(e.get("result")) and
+                           e["def"].endswith("Box::<T>::new")), None)
+                if bx:
+                    v = bx["argv"][0]
+                    while v[0] == "agg" and v[1] == "adt" and v[2] == "std::cell::UnsafeCell" and len(v[4]) == 1:
+                        v = v[4][0]
             if v[0] == "ref" and v[1][0] == "O" and v[1][1] == "a1":
                 okv = True
             elif v[0] == "op" and (v[1] == "a1" or v[1].startswith("a1.")):
